@@ -45,6 +45,23 @@ CLAIMED = {
              "until the dense model carries the theorem; tie sampled.",
         technique="Lean 4 proof by structural induction on the formula + metamorphic correspondence",
         design="DESIGN.md §4 C16"),
+    "C07": dict(
+        text="Machine-checked proof (Lean 4, model instantiated at the extended reals) that a strictly positive (negative) rho "
+             "implies Boolean satisfaction (violation) for every iff/xor-free sorted formula, and that for simple-predicate "
+             "formulas every trace whose samples all move by less than |rho| keeps the verdict; the monitors are tied to rho by "
+             "C01/C02/C03 and, directly, by a correspondence run comparing the sign of every value the real monitors return with "
+             "the model's Boolean evaluator, including perturbed traces at the extreme corners.",
+        note="Lean kernel + standard axioms; real-valued signals/constants; arithmetic in the theorems restricted to + - * "
+             "unary-minus abs; dense time covered by the correspondence stream; tie sampled.",
+        technique="Lean 4 proof (one structural induction with a soundness relation parameterised by the margin) + differential oracle",
+        design="DESIGN.md §4 C07"),
+    "C18": dict(
+        text="Machine-checked proof (Lean 4) of the nine duality / expansion laws as equalities of rho for all operands, bounds "
+             "and traces, transferred to the discrete offline and online monitors through C01/C02; metamorphic correspondence: "
+             "both sides of every law evaluated by the same real monitor on random operands and traces.",
+        note="Lean kernel + standard axioms; no NaN; dense-time laws validated by the metamorphic stream only; tie sampled.",
+        technique="Lean 4 proof (window algebra over a bounded linear order) + metamorphic correspondence",
+        design="DESIGN.md §4 C18"),
 }
 
 NOT_YET = {}
